@@ -3,9 +3,9 @@ CONSTANTS
   MaxOps = 3
   MaxSteps = 4
   JsonTree = FALSE
-  StatusOnly = FALSE
+  StatusOnly = TRUE
   RemoveDrops = FALSE
 INIT Init
 NEXT Next
 VIEW view
-INVARIANTS QueriesAgree CacheCoherent EmitInv
+INVARIANTS QueriesAgree
